@@ -79,6 +79,11 @@ def judge(ctx, results, kind, focus=None):
             ctx.violation(sig, '%s storage diverges from ZStorage at step %d %s%s: %s' % (
                 kind, mm['step'], mm['action'], mm['args'], '; '.join(mm['detail'])),
                 replay={'kind': kind, 'prefix': mm['prefix']})
+        if r.get('tid_reused'):
+            x = r['tid_reused']
+            ctx.violation({'storage': kind, 'kind': 'tid-reused'},
+                          '%s storage: the transaction id %r was given to a second transaction (specification = code; the first one had been '
+                          'removed by a pack): %s' % (kind, x['tid'], ' '.join(x['prefix'][-30:])), replay={'kind': kind, 'prefix': x['prefix']})
         for m in r['monitor']:
             ctx.violation({'storage': kind, 'monitor': 'new_oid', 'what': m.split(' which ')[-1].split(' twice')[0][:40]},
                           '%s: %s (behaviour %s)' % (kind, m, ' '.join(r['sig'][:30])), replay={'kind': kind, 'prefix': r['sig']})
